@@ -4,17 +4,20 @@ import time
 
 from harness import core, pipeline
 
-PROPS = ["TypeOK", "InstantiatePrivate"]
-TPROPS = ["InstOpsLocal", "ConstStable", "ReadonlyNever"]
+PROPS = ["TypeOK", "InstantiatePrivate", "ObjsListsPrivate"]
+TPROPS = ["InstOpsLocal", "NewLocal", "ConstStable", "ReadonlyNever"]
 KINDS = {"K12i": {"x": "plain", "m": "mut_inst"}, "K12s": {"x": "plain", "m": "mut_shared"},
          "K12n": {"x": "plain", "n": "noperinst"}, "K13": {"x": "plain"},
          "K14": {"k": "const", "r": "readonly", "x": "plain"}, "K14n": {"k": "const", "z": "constnone"},
-         "K12c": {"m": "mut_shared", "z": "constnone"}}
-NSEQ = {"K12i": "N12", "K12s": "N12", "K12n": "N12n", "K13": "N13", "K14": "N14", "K14n": "N14n", "K12c": "N12c"}
+         "K12c": {"m": "mut_shared", "z": "constnone"},
+         "K12sel0": {"x": "plain", "s": "sel0"}, "K12sel1": {"x": "plain", "s": "sel1"}}
+NSEQ = {"K12i": "N12", "K12s": "N12", "K12n": "N12n", "K13": "N13", "K14": "N14", "K14n": "N14n", "K12c": "N12c", "K12sel0": "N12sel", "K12sel1": "N12sel"}
+HIER = {"Cl2": ("Mro2", {"A": [], "B": ["A"]}), "Cl3": ("Mro3", {"A": [], "B": ["A"], "C": ["B"]}),
+        "ClD": ("MroD", {"A": [], "B": ["A"], "C": ["A"], "D": ["B", "C"]})}
 
 
 def cfg(classes, kind, acts, maxops, maxinst, hist):
-    lines = ["CONSTANTS", " Classes <- %s" % classes, " NameSeq <- %s" % NSEQ[kind], " Kind <- %s" % kind,
+    lines = ["CONSTANTS", " Classes <- %s" % classes, " MroOf <- %s" % HIER[classes][0], " NameSeq <- %s" % NSEQ[kind], " Kind <- %s" % kind,
              ' Extra = "y"', " Acts <- %s" % acts, " MaxOps = %d" % maxops, " MaxInst = %d" % maxinst,
              " RecordHist = %s" % ("TRUE" if hist else "FALSE"), "INIT Init", "NEXT Next", "CHECK_DEADLOCK FALSE"]
     if hist:
@@ -29,21 +32,24 @@ def run(prop, tier, seed):
     quick = tier == "quick"
     M = "MC_ClassModel.tla"
     if prop == "C12":
-        sets = [("K12i", "A12", "Cl2"), ("K12s", "A12", "Cl2"), ("K12n", "A12", "Cl2"), ("K12c", "A12", "Cl2")]
+        sets = [("K12i", "A12", "Cl2"), ("K12s", "A12", "Cl2"), ("K12n", "A12", "Cl2"), ("K12c", "A12", "Cl2"),
+                ("K12sel0", "A12sel", "Cl2"), ("K12sel1", "A12sel", "Cl2")]
     elif prop == "C13":
-        sets = [("K13", "A13", "Cl3")]
+        sets = [("K13", "A13", "Cl3"), ("K13", "A13d", "ClD")]
     else:
         sets = [("K14", "A14", "Cl2"), ("K14n", "A14", "Cl2")]
     props, gens = [], []
     for kind, acts, cl in sets:
-        n = "%s_p%s.cfg" % (prop, kind)
+        tagc = kind + cl
+        bases = HIER[cl][1]
+        n = "%s_p%s.cfg" % (prop, tagc)
         props.append({"module": M, "cfg": n, "extra_defs": {n: cfg(cl, kind, "AAll", 3 if quick else 4, 2, False)}})
-        n = "%s_g%s.cfg" % (prop, kind)
-        gens.append({"module": M, "cfg": n, "workers": 4, "opts": {"kinds": KINDS[kind], "classes": ["A", "B", "C"] if cl == "Cl3" else ["A", "B"]},
+        n = "%s_g%s.cfg" % (prop, tagc)
+        gens.append({"module": M, "cfg": n, "workers": 4, "opts": {"kinds": KINDS[kind], "bases": bases},
                      "extra_defs": {n: cfg(cl, kind, acts, 3 if quick else 4, 2, True)}})
-        n = "%s_s%s.cfg" % (prop, kind)
+        n = "%s_s%s.cfg" % (prop, tagc)
         gens.append({"module": M, "cfg": n, "workers": 8, "simulate": 250 if quick else 8000, "depth": 14, "seed": seed,
-                     "opts": {"kinds": KINDS[kind], "classes": ["A", "B", "C"] if cl == "Cl3" else ["A", "B"]},
+                     "opts": {"kinds": KINDS[kind], "bases": bases, "watch": True},
                      "extra_defs": {n: cfg(cl, kind, acts, 8, 3, True)}})
     with core.Scratch() as scratch:
         box = {}
